@@ -133,10 +133,14 @@ fn real_main() {
             let sc = scopes::Scope { n: v[0], t: v[1], p: v[2], k: v[3], symmetry: args.get(6).is_some(), only_cyclic: false };
             let rhss = scopes::all_rhs(sc.n, sc.t, sc.k);
             let mut n = 0u64;
+            let mut pres = 0u64;
             for unit in scopes::work_units(&sc, u128::MAX) {
-                scopes::for_each_completion(&sc, &rhss, &unit, &mut |_| n += 1);
+                scopes::for_each_completion(&sc, &rhss, &unit, &mut |g| {
+                    n += 1;
+                    scopes::for_each_presentation(&g, &mut |_| pres += 1);
+                });
             }
-            println!("{} raw={} enumerated={}", sc.name(), scopes::scope_size(&sc), n);
+            println!("{} raw={} enumerated={} with all presentations={}", sc.name(), scopes::scope_size(&sc), n, pres);
         }
         Some("free-run") => {
             print!("{}", c14::free_run_report(args.get(2).and_then(|s| s.parse().ok()).unwrap_or(0)));
